@@ -17,7 +17,14 @@ namespace vh {
 // disagreement replays exactly from (seed).
 struct Rng {
     uint64_t s;
-    explicit Rng(uint64_t seed) : s(seed * 0x9E3779B97F4A7C15ull + 0x1234567ull) {}
+    // the seed is hashed first: with s = seed * golden the streams of neighbouring seeds
+    // would be shifted copies of each other
+    static uint64_t mix(uint64_t z) {
+        z = (z ^ (z >> 30)) * 0xBF58476D1CE4E5B9ull;
+        z = (z ^ (z >> 27)) * 0x94D049BB133111EBull;
+        return z ^ (z >> 31);
+    }
+    explicit Rng(uint64_t seed) : s(mix(mix(seed + 0x1234567ull) ^ 0xD1B54A32D192ED03ull)) {}
     uint64_t next() {
         uint64_t z = (s += 0x9E3779B97F4A7C15ull);
         z = (z ^ (z >> 30)) * 0xBF58476D1CE4E5B9ull;
